@@ -81,6 +81,15 @@ func (RxEngine) Generate(prop string, r *kit.Rand, tier string) *kit.Scenario[Rx
 		sc.Ops = append(sc.Ops, RxOp{Base: "interest", Seed: r.Intn(1 << 16)}, RxOp{Base: "data", Seed: r.Intn(1 << 16)})
 		return sc
 	}
+	if !c.Stream && r.Chance(0.03) {
+		// a peer that starts many large messages and finishes none: first fragments that announce thousands of
+		// fragments, each under its own sequence number
+		perm := r.Perm(48)
+		for _, m := range perm[:r.Range(20, 48)] {
+			sc.Ops = append(sc.Ops, RxOp{Base: "fragx", Seed: m, Mut: "fragfield", At: 1, Val: kit.Pick(r, []uint64{8800, 8799, 4000, 1000})})
+		}
+		return sc
+	}
 	if !c.Stream && r.Chance(0.05) {
 		// the long life of one face's reassembly store: a hundred or so fragmented messages, most delivered
 		// completely and in order, some re-sent after completion, some left incomplete, a few with a corrupted field
@@ -946,12 +955,26 @@ func (e RxEngine) Run(t *testing.T, ctx *kit.Ctx, sc *kit.Scenario[RxConfig, RxO
 			}
 		}
 		if !c.Stream {
+			// what the forwarder keeps after the frames are gone must be in proportion to what it was sent
+			runtime.GC()
+			runtime.ReadMemStats(&ms)
+			heap0, inputBytes := ms.HeapAlloc, 0
 			for i, f := range frames {
 				step = i
 				feed(f)
+				inputBytes += len(f)
 				res.Steps++
 				if res.Violation != nil {
 					break
+				}
+			}
+			if res.Violation == nil {
+				runtime.GC()
+				runtime.ReadMemStats(&ms)
+				if kept := int64(ms.HeapAlloc) - int64(heap0); kept > int64(2<<20+8*inputBytes) {
+					pm, pf := rx.VerifPartialStoreSize()
+					res.Violation = &kit.Violation{Class: "C04/memory-retained-out-of-proportion", Key: "forwarder-receive-path", Step: step,
+						Detail: fmt.Sprintf("%d frames (%d bytes in all) left %d bytes on the heap after garbage collection (reassembly store: %d messages, %d fragments)", len(frames), inputBytes, kept, pm, pf)}
 				}
 			}
 		} else {
